@@ -722,7 +722,8 @@ def _reginv_violations(wn):
         bad.append("link name list / count disagree with the link registry")
     try:
         typed_n = {"Junction": dict(wn.junctions()), "Tank": dict(wn.tanks()), "Reservoir": dict(wn.reservoirs())}
-        typed_l = {"Pipe": dict(wn.pipes()), "Pump": dict(wn.pumps()), "Valve": dict(wn.valves()), "HeadPump": dict(wn.head_pumps()), "PowerPump": dict(wn.power_pumps())}
+        typed_l = {"Pipe": dict(wn.pipes()), "Pump": dict(wn.pumps()), "Valve": dict(wn.valves()), "HeadPump": dict(wn.head_pumps()), "PowerPump": dict(wn.power_pumps()),
+                   "PRValve": dict(wn.prvs()), "PSValve": dict(wn.psvs()), "PBValve": dict(wn.pbvs()), "TCValve": dict(wn.tcvs()), "FCValve": dict(wn.fcvs()), "GPValve": dict(wn.gpvs())}
     except KeyError as e:
         return bad + ["a typed iterator raised KeyError(%s): a typed set names an element that no longer exists" % e]
     for k, d in list(typed_n.items()) + list(typed_l.items()):
@@ -837,7 +838,7 @@ def _edit_histories(shard, nshards):
                             else:
                                 wn.add_pump(fresh("U"), a, b, "POWER", 50.0, pattern=rng.choice([None, "p1"] if "p1" in wn.pattern_name_list else [None]))
                         else:
-                            wn.add_valve(fresh("V"), a, b, valve_type=rng.choice(["PRV", "TCV", "FCV"]), initial_setting=1.0)
+                            wn.add_valve(fresh("V"), a, b, valve_type=rng.choice(["PRV", "PSV", "PBV", "TCV", "FCV"]), initial_setting=1.0)
                     elif op == "add_source" and nl:
                         wn.add_source(fresh("S"), rng.choice(nl), "CONCEN", 1.0, rng.choice([None, "p1"] if "p1" in wn.pattern_name_list else [None]))
                     elif op == "add_control" and ll:
